@@ -291,6 +291,7 @@ fn ttl_strategy(ttl_pct: u32) -> BoxedStrategy<i64> {
         1 => (0i64..NS).prop_map(|x| 2 * NS + x),
         1 => Just(59_999_000_000i64),
         1 => Just(3600 * NS),
+        1 => Just(HUGE_TTL),
     ];
     prop_oneof![
         (100 - ttl_pct.min(100)) => Just(0i64),
